@@ -394,6 +394,18 @@ pub fn gen_path(src: &mut Src) -> (Vec<P>, i64) {
     (v, w)
 }
 fn path_case(src: &mut Src, ctx: &mut Ctx) -> Result<(), String> {
+    // one case in eight begins with a query the library documents as unsupported (a path with a diagonal
+    // segment after some Manhattan ones; it may answer, refuse or panic): what it does there is not judged,
+    // but the queries that follow, on other paths, are
+    if src.prob(1, 8) {
+        let (mut v0, w0) = gen_path(src);
+        let last = *v0.last().unwrap();
+        v0.push((last.0 + 7, last.1 + 5));
+        let doomed = raw::Path { points: v0.iter().map(|p| pt(*p)).collect(), width: w0 as usize };
+        let q = pt((v0[0].0, v0[0].1));
+        let _ = crate::engine::guard(|| doomed.contains(&q));
+        ctx.label("path queries after a query on an unsupported (diagonal) path");
+    }
     let (v, w) = gen_path(src);
     let path = raw::Path { points: v.iter().map(|p| pt(*p)).collect(), width: w as usize };
     ctx.nontrivial(hash_of(&(&v, w)));
